@@ -12,7 +12,9 @@ RULE = (
     "(flag set and some blocker failed/canceled, evaluated in topological order) <=> result status 'canceled' "
     "with non-zero return code and zero launches; every other job launched exactly once; non-trivial = >= 1 job "
     "canceled by the reference AND >= 1 flagged job with blockers that must not be canceled; placement of each "
-    "cancellation (same batch / other batch as the failing blocker) is counted; distinct by hash of (scenario, schedule)"
+    "cancellation (same batch / other batch as the failing blocker) is counted; distinct by hash of (scenario, schedule). "
+    "A quarter of the cases continue with resubmit-jobs (failed/canceled, optionally successful): exit codes belong to the "
+    "jobs, so in the rerun no reference-canceled job may be started, no job is started twice, and the final classes equal the reference again"
 )
 ASSUMPTIONS = C.WORLD_ASSUMPTIONS
 setup, teardown = C.setup, C.teardown
@@ -23,7 +25,51 @@ def strategy(tier):
     from jv import gen
 
     biased = st.fixed_dictionaries({"scn": gen.cancel_scenarios(), "schedule": gen.schedules()})
-    return st.one_of(biased, biased, biased, C.world_cases())
+    # a quarter of the cases go on with `resubmit-jobs` (failed/canceled jobs, optionally the successful ones too): the exit
+    # codes belong to the jobs, so a failing blocker fails again in the rerun and the same jobs must be canceled again --
+    # now on the basis of what the submission recorded about them
+    rerun = st.fixed_dictionaries({"scn": gen.cancel_scenarios(), "schedule": gen.schedules(),
+                                   "resubmit": st.fixed_dictionaries({"successful": st.booleans()}),
+                                   "schedule2": gen.schedules(80)})
+    return st.one_of(biased, biased, rerun, C.world_cases())
+
+
+def check_rerun(case, sim, ref, res):
+    """resubmit-jobs after completion; the reference classification is unchanged (exit codes belong to the jobs)."""
+    v = res["violations"]
+    scn = case["scn"]
+    mark = len(sim.w.log)
+    sim.w.note("user", cmd="resubmit")
+    sim.user_cmd(["resubmit-jobs", sim.out, "--failed", "--missing",
+                  "--successful" if case["resubmit"]["successful"] else "--no-successful"], name="resubmit")
+    sim.recovery_rounds = 0
+    s2 = case.get("schedule2", [])
+    sim.w.schedule, sim.w.k = list(s2.get("picks", []) if isinstance(s2, dict) else s2), 0
+    outcome = sim.drive()
+    res["classes"].append("resubmitted")
+    launched = {}
+    for r in sim.w.log[mark:]:
+        if r["k"] == "launch":
+            launched[r["name"]] = launched.get(r["name"], 0) + 1
+    if not launched and not any(c in ("failed", "canceled") for c in ref.values()) and not case["resubmit"]["successful"]:
+        return  # nothing was selected
+    for name, cls in sorted(ref.items()):
+        if cls == "canceled" and launched.get(name, 0) > 0:
+            v.append(C.viol("C04:canceled-job-was-started|rerun", f"after resubmit-jobs: job {name} must be canceled again (a "
+                            f"blocker failed or was canceled in the rerun) but its command was started {launched[name]} time(s)"))
+        if launched.get(name, 0) > 1:
+            v.append(C.viol("C04:runnable-job-launch-count|rerun", f"after resubmit-jobs: job {name} was launched {launched[name]} times"))
+    if outcome != "complete":
+        res["inconclusive"] = "rerun-" + outcome.split(":")[0]
+        return
+    summary = sim.results_summary()
+    results = summary["results"] if summary else {}
+    for name, cls in sorted(ref.items()):
+        got = results.get(name)
+        if got is None or H.classify_result(got[0], got[1]) != cls:
+            v.append(C.viol("C04:wrong-class|rerun", f"after resubmit-jobs: job {name}: reference {cls}, final result {got}"))
+    if any(launched.get(n) for n, c in ref.items() if c == "failed") and any(c == "canceled" for c in ref.values()):
+        res["classes"].append("rerun_failing_blocker_with_flagged_dependent")
 
 
 def run_case(case):
@@ -76,6 +122,8 @@ def run_case(case):
                         res["classes"].append("cancel:same-batch" if same else "cancel:in-batch-blocker-elsewhere")
                     else:
                         res["classes"].append("cancel:by-submitter")
+        if outcome == "complete" and case.get("resubmit") and not v:
+            check_rerun(case, sim, ref, res)
         n_cancel = sum(1 for c in ref.values() if c == "canceled")
         n_kept = sum(1 for j in scn["jobs"] if j["cancel"] and j["blocked_by"] and ref[j["name"]] != "canceled")
         res["classes"] = sorted(set(res["classes"]))
